@@ -379,7 +379,7 @@ pub fn run_check(ctx: &Ctx) -> i32 {
         sweep(ctx, "B16<=4 x 6 configs x every prefix x L1,L2,LB,LE", Space::Bytes { max: 4 }, &cfgs, l12);
         sweep(ctx, "18 contexts x F<=2 x {none, everything} x every prefix x L1,LB", Space::CtxFrags { k, max: 2 }, &passive_only, l1);
         sweep(ctx, "18 contexts x B16<=3 x {none, everything} x every prefix x L1,LB", Space::CtxBytes { max: 3 }, &passive_only, l1);
-        sweep(ctx, "10 foreign contexts x 55 foreign tag fragments<=2 x 6 configs x every prefix x L1,LB", Space::Foreign { max: 2 }, &cfgs, l1);
+        sweep(ctx, "10 foreign contexts x 58 foreign tag fragments<=2 x 6 configs x every prefix x L1,LB", Space::Foreign { max: 2 }, &cfgs, l1);
     } else {
         let lall = Levels { l1: true, l2_max_len: 48, bytewise: true, empties: true };
         sweep(ctx, "F<=3 x 6 configs x every prefix x L1,L2,LB,LE", Space::Frags { k, max: 3 }, &cfgs, lall);
@@ -388,7 +388,7 @@ pub fn run_check(ctx: &Ctx) -> i32 {
         sweep(ctx, "B16<=6 x {none, everything} x every prefix x L1", Space::Bytes { max: 6 }, &passive_only, l1);
         sweep(ctx, "18 contexts x F<=3 x {none, everything} x every prefix x L1,LB", Space::CtxFrags { k, max: 3 }, &passive_only, l1);
         sweep(ctx, "18 contexts x B16<=4 x 6 configs x every prefix x L1,L2,LB", Space::CtxBytes { max: 4 }, &cfgs, lall);
-        sweep(ctx, "10 foreign contexts x 55 foreign tag fragments<=3 x 6 configs x every prefix x L1,LB", Space::Foreign { max: 3 }, &cfgs, l1);
+        sweep(ctx, "10 foreign contexts x 58 foreign tag fragments<=3 x 6 configs x every prefix x L1,LB", Space::Foreign { max: 3 }, &cfgs, l1);
     }
     ctx.finish(
         "model_checking",
